@@ -356,6 +356,10 @@ func DependsOn(bytes []byte, v interface{}) bool { return derived() }
 // a no-op, so harnesses using it are not replayed as traces).
 func HavocLoopVar(fn, name string) {}
 
+// HavocU64 is HavocLoopVar that also returns the fresh value (truncated to the variable's
+// width at the loop head), so that the harness can state the inductive step.
+func HavocU64(fn, name string) uint64 { return nextU("u64") }
+
 // LocksetBegin / LocksetEnd bracket an operation whose memory accesses are recorded
 // together with the set of ghost locks held. Natively no-ops.
 func LocksetBegin(tag string) {}
